@@ -444,7 +444,7 @@ def compare_one(rules, text, words):
     except RecursionError:
         return None
     try:
-        with watchdog(20):
+        with watchdog(5):  # (inputs are a handful of tokens: milliseconds)
             b = run_gen(TP, words)
     except SoftTimeout:
         b = ("hang",)
@@ -525,6 +525,8 @@ def check_grammar(rec, rules, feats, budget, stream):
         rec.evaluations += 1
         if r is not None and first_bad is None:
             first_bad = (words, r)
+        if r is not None and r[0].endswith("->hang"):
+            break  # (a generated parser that loops does so on most inputs: one report per grammar, not one watchdog period per input)
     # metamorphic side-check: the generator's size optimisations never change behaviour
     if first_bad is None:
         alt_rules = uninlined(rules)
